@@ -144,8 +144,9 @@ class _BytearrayShim:
     __name__ = "bytearray"
 
     def __call__(self, x=b"", *a):
+        # always the mutable proxy: the code may append symbolic bytes to it later
         r = _bytes_ctor(x, *a)
-        return r if r is not None else builtins.bytearray(x, *a)
+        return r if r is not None else SymBytes.lit(builtins.bytearray(x, *a))
 
 
 bytes_ = _BytesShim()
